@@ -881,3 +881,72 @@ func (c *Ctx) ModelSymbols(q string) []string {
 	}
 	return out
 }
+
+// Slice returns the hypotheses in the cone of influence of the goal: those that share a
+// declared symbol, directly or through other kept hypotheses, with the goal. Dropping
+// hypotheses only weakens the antecedent, so "unsat" for the sliced query is a proof of
+// the full one. Constants of the theory and shared definitions are looked through.
+func (c *Ctx) Slice(hyps []Term, goal Term) []Term {
+	memo := map[string]map[string]bool{}
+	var symsOf func(s string, depth int) map[string]bool
+	symsOf = func(s string, depth int) map[string]bool {
+		out := map[string]bool{}
+		for _, m := range symRe.FindAllString(s, -1) {
+			if i, ok := c.defIdx[m]; ok {
+				sub, done := memo[m]
+				if !done {
+					memo[m] = map[string]bool{} // cycle guard (definitions are acyclic)
+					sub = symsOf(c.defs[i].body, depth+1)
+					memo[m] = sub
+				}
+				for k := range sub {
+					out[k] = true
+				}
+				continue
+			}
+			if _, ok := c.declIdx[m]; ok {
+				out[m] = true
+			}
+		}
+		return out
+	}
+	hs := make([]map[string]bool, len(hyps))
+	for i, h := range hyps {
+		hs[i] = symsOf(h.S, 0)
+	}
+	cone := symsOf(goal.S, 0)
+	keep := make([]bool, len(hyps))
+	for changed := true; changed; {
+		changed = false
+		for i := range hyps {
+			if keep[i] {
+				continue
+			}
+			if len(hs[i]) == 0 {
+				// a ground fact (possibly "false"): always kept
+				keep[i] = true
+				changed = true
+				continue
+			}
+			for k := range hs[i] {
+				if cone[k] {
+					keep[i] = true
+					break
+				}
+			}
+			if keep[i] {
+				changed = true
+				for k := range hs[i] {
+					cone[k] = true
+				}
+			}
+		}
+	}
+	var out []Term
+	for i, h := range hyps {
+		if keep[i] {
+			out = append(out, h)
+		}
+	}
+	return out
+}
